@@ -116,6 +116,14 @@ CHECKS = {
         note=TRUSTED + " lib/snapshot.py reads only field structure of Polar's objects. Not decided: Bernoulli abstraction of conditions over continuous variables (oracle gives up).",
         design="DESIGN.md section 4 C02",
     ),
+    "C17": dict(
+        technique="property-based testing, metamorphic/differential: the same generated program and goals analysed under different settings vectors must give closed forms that agree at every n",
+        text="Generated-input search over programs and settings vectors (cond2arithm, transform_categoricals, both, forced cyclic solver, explicit types block with and "
+             "without inference, numeric_roots, numeric_croots): whenever the baseline and an alternative both succeed their closed forms are compared at n=0..N and a "
+             "parameter point; results flagged exact must be equal, results flagged rounded must stay within the growth bound of C04; a crash under one vector is a refusal.",
+        note=TRUSTED + " Differential only (the baseline is judged against the reference interpreter by C01; on a disagreement the replay records which side the interpreter supports).",
+        design="DESIGN.md section 4 C17",
+    ),
 }
 
 PENDING = {}
